@@ -10,6 +10,7 @@ import (
 	"strings"
 
 	"j5verif/checker/core"
+	"j5verif/checker/rules"
 )
 
 func init() { Registry["C20"] = C20 }
@@ -372,6 +373,10 @@ func parsePadVerb(s string) (zero bool, w int64) {
 // guardedByLenGreater returns K if the node is inside the taken arm of an
 // `if len(v) > K` (or `K < len(v)`, `len(v) >= K+1`) statement, else -1.
 func guardedByLenGreater(info *types.Info, fd *ast.FuncDecl, target ast.Node, v string) int64 {
+	// dominating facts (if, else-if chains, tagless switch clauses): len(v) >= m
+	if m := rules.FactsAt(info, fd.Body, target).MinLen[v]; m > 0 {
+		return int64(m - 1)
+	}
 	path := core.PathTo(fd.Body, target)
 	for i := len(path) - 1; i > 0; i-- {
 		ifs, ok := path[i-1].(*ast.IfStmt)
